@@ -68,7 +68,8 @@ static void t_collapse(const char *in, char *out, size_t cap)
 /* content of file id: identifies which files were applied (only_<id>), which came last (k) and the relative
  * order of every pair (pr_<a>_<b>), plus a key (e) that every second file sets to the empty value; placed group-less, in [S],
  * or both, depending on the id */
-static int t_opt_hollow;   /* the first drop-in name in the highest layer is a file without keys ("# disabled"): it still takes part in the same-name rule */
+static int t_opt_hollow;   /* 1: the first drop-in name in the highest layer is a file without keys ("# disabled"): it still takes part in the same-name rule;
+                            * 2: that drop-in is a symbolic link to /dev/null (the usual way to switch a vendor drop-in off) */
 static void t_build_contents(void)
 {
   ts.nfiles = ts.nlayers + ts.nlayers * ts.ncd * ts.nu;
@@ -99,7 +100,7 @@ static void t_build_contents(void)
       }
     }
     sbuf b = {0}; int ne = 0;
-    if (t_opt_hollow && cd >= 0 && l == ts.nlayers - 1 && n == 0) { sb_puts(&b, "# disabled by the administrator\n"); nb = 0; }
+    if (t_opt_hollow && cd >= 0 && l == ts.nlayers - 1 && n == 0) { sb_puts(&b, t_opt_hollow == 2 ? "" : "# disabled by the administrator\n"); nb = 0; }
     if (t_kind[id] != 1) for (int i = 0; i < nb; i++) { t_ent[id][ne] = base[i]; t_ent[id][ne].g = NULL; ne++; sb_printf(&b, "%s=%s\n", base[i].k, base[i].v); }
     if (t_kind[id] != 0 && nb) { sb_puts(&b, "[S]\n"); for (int i = 0; i < nb; i++) { t_ent[id][ne] = base[i]; t_ent[id][ne].g = "S"; ne++; sb_printf(&b, "%s=%s\n", base[i].k, base[i].v); } }
     t_nent[id] = ne;
@@ -129,7 +130,8 @@ static void t_put_main(int l, int st)
 static void t_put_drop(int l, int c, int n, int present)
 {
   int id = t_id_drop(l, c, n);
-  if (present) mc_write_file(t_path[id], t_disk[id], strlen(t_disk[id]));
+  if (present && t_opt_hollow == 2 && l == ts.nlayers - 1 && n == 0) { unlink(t_path[id]); if (symlink("/dev/null", t_path[id]) != 0) mc_die("symlink %s: %s", t_path[id], strerror(errno)); }
+  else if (present) mc_write_file(t_path[id], t_disk[id], strlen(t_disk[id]));
   else unlink(t_path[id]);
 }
 
